@@ -228,6 +228,7 @@ func writeEvidence(dir string, meta propMeta, tier string, seed int64, c *Ctx, c
 			"source_functions":    len(c.P.SrcFuncs),
 			"ssa_instructions":    c.P.NInstr,
 			"callgraph_nodes":     len(c.P.CG.Nodes),
+			"helper_inlining":     c.P.Inline.String(),
 		},
 	}
 	for k, v := range extra {
